@@ -515,7 +515,9 @@ func (st *funcState) visit(ins ssa.Instruction) bool {
 	ch := false
 	switch x := ins.(type) {
 	case *ssa.Alloc, *ssa.MakeSlice, *ssa.MakeMap, *ssa.MakeChan:
-		ch = st.setRoots(x.(ssa.Value), fresh)
+		// one root per allocation site: what one local cell holds (a spilled parameter, a captured variable) must not
+		// be attributed to every other local of the function
+		ch = st.setRoots(x.(ssa.Value), rootSet{Root{"fresh", st.fn.String() + "#" + x.(ssa.Value).Name()}: true})
 	case *ssa.MakeClosure:
 		rs := rootSet{}
 		rs.add(fresh)
